@@ -1,3 +1,4 @@
+import JominiModel.Proofs.BinDeCutDoc
 import JominiModel.Proofs.BinCut
 import JominiModel.Proofs.TextTapeCut
 import JominiModel.Proofs.BinTapeCut
